@@ -73,6 +73,8 @@ class E:
                 d = x.extra or {}
                 if name is not None and d.get("def") and path_matches(d["def"], name):
                     return True
+                if name is not None and any(path_matches(p, name) for p in (d.get("prefs") or []) if "::" in p or p == name):
+                    return True
                 if val is not None and d.get("val") == val:
                     return True
         return False
@@ -92,6 +94,8 @@ class E:
         k = self.k
         if k == "const":
             e = self.extra or {}
+            if e.get("prefs"):
+                return "&" + "+".join(x.rsplit("::", 1)[-1] for x in e["prefs"])
             if e.get("def"):
                 return e["def"].rsplit("::", 1)[-1]
             if "val" in e:
@@ -592,11 +596,15 @@ def variant_defs(body):
 def _expr_locals(e):
     """locals/call nodes an expression depends on (for invalidation)"""
     deps = set()
-    for x in e.walk():
+    stack = [e]
+    while stack:
+        x = stack.pop()
         if x.k == "local":
             deps.add(("l", x.extra))
         elif x.k == "call":
             deps.add(("n", x.nid))
+            continue
+        stack.extend(x.a)
     return deps
 
 
@@ -628,8 +636,13 @@ def _immutable_root(body, e):
     assumed equal?  consts, never-reassigned arguments, non-atomic plain fields
     through shared references, comparisons of those, and single call results
     (identified by node, invalidated when the call re-executes)."""
-    for x in e.walk():
-        if x.k in ("const", "arg", "bin", "un", "cast", "discr", "downcast", "call"):
+    stack = [e]
+    while stack:
+        x = stack.pop()
+        if x.k == "call":
+            continue   # one dynamic evaluation, identified by its node: its arguments do not matter
+        if x.k in ("const", "arg", "bin", "un", "cast", "discr", "downcast"):
+            stack.extend(x.a)
             continue
         if x.k == "local":
             # a mutable local: usable, invalidated at each of its definitions
@@ -642,6 +655,7 @@ def _immutable_root(body, e):
                 return False
             if x.extra[1] in _written_fields(body):
                 return False
+            stack.extend(x.a)
             continue
         return False
     return True
